@@ -32,8 +32,13 @@ def sp_for(opts=None, md=None, cache_key=None, config_class='sp'):
 def deliver(sp, doc, binding=None, outstanding=None, **kw):
     """returns ('accept', AuthnResponse) | ('reject', exception class name, message)"""
     binding = binding or world.POST
+    enc = build.b64(doc)
+    if binding == world.REDIRECT:
+        # what the browser hands over from the query string: DEFLATE + base64
+        import zlib, base64
+        enc = base64.b64encode(zlib.compress(doc.encode('utf-8'))[2:-4]).decode('ascii')
     try:
-        resp = sp.parse_authn_request_response(build.b64(doc), binding, dict(outstanding if outstanding is not None else {'id-req-1': '/'}), **kw)
+        resp = sp.parse_authn_request_response(enc, binding, dict(outstanding if outstanding is not None else {'id-req-1': '/'}), **kw)
     except Exception as e:
         return ('reject', type(e).__name__, str(e)[:200])
     if resp is None:
